@@ -170,6 +170,13 @@ def tensor_ops(ctx, n):
             if rng.random() < 0.3:
                 cov = rng.choice([[1], [0, 1], []])
             k = rng.randint(2, 4)
+            if rng.random() < 0.35:
+                # tensors of type (1,2) / (2,1): the chain pairs the first unused covariant index of each copy with the first unused
+                # contravariant index of the previous one; the order of the left-over indices shows any regrouping of the chain
+                tr = 3
+                cov = sorted(rng.sample(range(3), rng.choice([1, 2])))
+                et = ET((2, 2, 2), [rng.randint(-2, 2) for _ in range(8)])
+                k = rng.choice([3, 3, 4])
             t = Tensor(et.numpy(), covariant=cov)
             # __pow__: cur = prev.copy(); add_edge(cur, prev)  -- k distinct objects with the same data
             nodes = [(i + 1, 0, tr, cov, et) for i in range(k)]
